@@ -11,7 +11,7 @@ HNDB_FILES = ["Proofs/HandlerB_Base.v", "Proofs/HandlerB_Frame.v", "Proofs/Handl
 HND_TB = [
     "modelled, not verified: cryptography is symbolic (Dolev-Yao terms for ECDH/HKDF keys, AES-GCM ciphertexts, ECDSA id-signatures; the harness maps real datagrams to terms with the crate's own primitives and tests that the real primitives behave like the terms on every generated case); tokio timers are deadlines fired on a 5 ms grid of a paused clock; the order in which timers with one and the same deadline fire is an oracle choice (insertion order or its reverse, the two behaviours of tokio-util's timer wheel); randomness is an oracle input observed on the wire; session expiry by age is not part of the handler model (Model/Lru.v); the UDP socket tasks are replaced by channels (real RecvHandler::handle_inbound and Packet::encode/decode are used)",
 ]
-def _hnd(focus, quick=64, thorough=1500, extra=()):
+def _hnd(focus, quick=128, thorough=1500, extra=()):
     return {
         "coq_files": HND_FILES + list(extra),
         "runner_vo": "Run/HandlerRun.v",
@@ -31,7 +31,7 @@ SPECS = {
         "coq_files": KB_FILES + ["Lib/ListY.v", "Proofs/KBucketInv.v", "Proofs/KBucketTable.v", "Proofs/KBucketPending.v"] + ["Proofs/KBucketExamples.v"],
         "runner_vo": "Run/KBucketRun.v",
         "harness": [
-            {"component": "kb", "args": ["--focus", "c07"], "quick": 96, "thorough": 1600},
+            {"component": "kb", "args": ["--focus", "c07"], "quick": 128, "thorough": 1600},
             # structural invariants also under the IP filters; correspondence of that run belongs to C16
             {"component": "kb", "args": ["--focus", "c16"], "quick": 48, "thorough": 400, "correspondence": False},
         ],
@@ -43,7 +43,7 @@ SPECS = {
         "coq_files": KB_FILES + ["Lib/ListY.v", "Proofs/KBucketInv.v", "Proofs/KBucketTable.v", "Proofs/KBucketPending.v"] + ["Proofs/KBucketEntries.v", "Proofs/Subnet.v", "Proofs/SubnetExamples.v"],
         "runner_vo": "Run/KBucketRun.v",
         "harness": [
-            {"component": "kb", "args": ["--focus", "c16"], "quick": 96, "thorough": 1600},
+            {"component": "kb", "args": ["--focus", "c16"], "quick": 128, "thorough": 1600},
         ],
         "trusted_base": KB_TB,
         "assumptions": ["the raw Entry API (AbsentEntry::insert, value_mut) bypasses the filters by its documentation and is excluded",
@@ -71,7 +71,7 @@ SPECS = {
         "coq_files": KB_FILES + ["Proofs/ClosestOrder.v"] + ["Lib/ListY.v", "Proofs/KBucketInv.v", "Proofs/KBucketTable.v", "Proofs/KBucketPending.v"] + ["Proofs/ClosestTable.v"],
         "runner_vo": "Run/KBucketRun.v",
         "harness": [
-            {"component": "kb", "args": ["--focus", "c08"], "quick": 96, "thorough": 1600},
+            {"component": "kb", "args": ["--focus", "c08"], "quick": 128, "thorough": 1600},
         ],
         "trusted_base": KB_TB,
         "assumptions": [
